@@ -25,6 +25,7 @@ type SV struct {
 	tname   types.Type     // a type used as a value (conversion target / typeis argument)
 	all     bool           // the [*] index marker
 	wlog    bool           // the emission log of a writer (assigns location)
+	pointee bool           // addr is the target this pointer value designates (not the location the value is stored at)
 	greg    *regInfo       // ghost variable location: register
 	gidx    *Term          // ghost variable location: index
 }
@@ -160,7 +161,7 @@ func (env *evalEnv) eval(x ast.Expr) SV {
 			return a
 		case token.AND: // address-of: only of something that has an address
 			if a.addr != nil {
-				return SV{t: tb.Fresh("specaddr", RefSort), typ: types.NewPointer(a.typ), addr: a.addr}
+				return SV{t: tb.Fresh("specaddr", RefSort), typ: types.NewPointer(a.typ), addr: a.addr, pointee: true}
 			}
 		}
 	case *ast.StarExpr:
@@ -170,10 +171,10 @@ func (env *evalEnv) eval(x ast.Expr) SV {
 			env.fail("dereference of non-pointer %s", exprString(v.X))
 		}
 		ad := a.addr
-		if ad == nil {
+		if ad == nil || !a.pointee {
 			ad = &Addr{ref: a.t, root: pt.Elem()}
 		}
-		return SV{t: e.load(env.st, ad), typ: pt.Elem(), addr: nil}
+		return SV{t: e.load(env.st, ad), typ: pt.Elem(), addr: ad}
 	case *ast.BinaryExpr:
 		return env.binary(v)
 	case *ast.SelectorExpr:
@@ -403,7 +404,7 @@ func (env *evalEnv) selector(v *ast.SelectorExpr) SV {
 		ft := su.Field(fi).Type()
 		if curPtr {
 			ad := cur.addr
-			if ad == nil {
+			if ad == nil || !cur.pointee {
 				ad = &Addr{ref: cur.t, root: curT}
 			}
 			ad = ad.extend(step{kind: stField, field: fi, cont: curT})
@@ -736,6 +737,7 @@ func (env *evalEnv) ghostCall(g *GhostFunc, v *ast.CallExpr) SV {
 		n := genv.clone()
 		n.depth = env.depth + 1
 		n.vars = map[string]SV{}
+		n.oldVars = nil
 		for i, p := range g.params {
 			a := args[i]
 			if a.typ == nil || a.untyped {
